@@ -191,3 +191,14 @@ type (
 	cryptoPublicKey  = crypto.PublicKey
 	cryptoSignerOpts = crypto.SignerOpts
 )
+
+// short aliases for the reference tree constructors
+var (
+	refNMap    = refcbor.NMap
+	refNArr    = refcbor.NArr
+	refNInt    = refcbor.NInt
+	refNBstr   = refcbor.NBstr
+	refNTstr   = refcbor.NTstr
+	refNNull   = refcbor.NNull
+	encodeNode = refcbor.Encode
+)
